@@ -347,12 +347,16 @@ def apply_ghost(text, label, ghost, report):
             ks, rest = arg.split(None, 1)
             k = int(ks)
             kw_i, brace_i, kw = marked_loop(k)
-            expected, newit = [x.strip() for x in rest.split("==>")]
             m = re.match(r"for (.*?) in (.*)$", text[kw_i:brace_i].strip(), re.S)
             if not m or kw != "for":
                 raise Undecided("loop #%d in %s is not a for loop" % (k, label))
-            if canon(m.group(2)) != canon(expected):
-                raise Undecided("loop #%d in %s iterates `%s`, expected `%s`" % (k, label, m.group(2).strip(), expected))
+            newit = None
+            for alt in rest.split("||"):   # alternates: the iterator expressions a specified wrapper exists for
+                expected, cand = [x.strip() for x in alt.split("==>")]
+                if canon(m.group(2)) == canon(expected):
+                    newit = cand
+            if newit is None:
+                raise Undecided("loop #%d in %s iterates `%s`: no specified iterator wrapper for it" % (k, label, m.group(2).strip()))
             cb = rustlex.match_brace(rustlex.mask(text), brace_i)
             itn = "it__%d" % k
             mk = "/*@L%d*/" % k
